@@ -2,6 +2,7 @@ package rules
 
 import (
 	"fmt"
+	"go/constant"
 	"go/token"
 	"go/types"
 	"sort"
@@ -25,6 +26,7 @@ func init() {
 			"R5 per-count loop: the key of each stored SNP measurement is the loop variable over the requested counts and the value is LaunchDigest called with Vcpus assigned from that variable in the same iteration. " +
 			"R7 every sev.LaunchOptions object built in a function that receives the request gets Product from the request before it is used. R8 an options object created outside a loop has every field that the loop changes re-assigned before each measurement in the loop (no setting leaks from one entry to the next). R6 SignDoc: Cert, CaBundle and Timestamp are stored before the single proto.Marshal of the document and nothing is stored afterwards. " +
 			"R9 a function that assigns the SVN of one technology's request assigns the other technology's on every successful path unless that request is nil / dropped (the SVN side file reaches every endorsed technology). " +
+			"R10 in the command layer a Context field that is loaded under its own flag test is loaded on every successful path on which that flag may be set (an early return in front of the block does not skip a requested input). " +
 			"Not covered: that each digest equals the launch measurement (C04/C05).",
 		Assumptions: []string{"go/types, go/ssa, VTA call graph", "bytes.Buffer writes do not fail", "generated protobuf struct fields are the message contents"},
 		Run:         runC06,
@@ -680,6 +682,148 @@ func runC06(c *Ctx) {
 			}
 		}
 		c.S.Floor("R9", "functions assigning a request's SVN", 1, nFns)
+	}
+
+	// ---- R10: an input the request names is loaded ----
+	// In the command layer a field of the endorse Context that is filled under its own flag test
+	// (`if f.XPath != "" { ec.X = read(f.XPath) }`) is filled on every successful path on which that flag may be
+	// set: no early return placed in front of the block skips it.
+	{
+		type guarded struct {
+			st   *ssa.Store
+			flag flow.FieldKey
+			name string
+		}
+		nG := 0
+		for _, f := range c.P.RepoFunctions() {
+			if load.RelPkg(f) != "cmd" || c.isTestFunc(f) || errIndex(f.Signature) < 0 {
+				continue
+			}
+			var gs []guarded
+			for _, b := range f.Blocks {
+				for _, in := range b.Instrs {
+					st, ok := in.(*ssa.Store)
+					if !ok {
+						continue
+					}
+					fa, ok := st.Addr.(*ssa.FieldAddr)
+					if !ok || !namedIs(fa.X.Type(), endorsePkg, "Context") {
+						continue
+					}
+					for _, cf := range dominatingConds(b) {
+						bo, ok := cf.Cond.(*ssa.BinOp)
+						// the innermost condition that controls the store, error checks aside, must be the flag test
+						if ok && (bo.Op == token.NEQ || bo.Op == token.EQL) && isNilK(bo.Y) && bo.X.Type().String() == "error" {
+							continue
+						}
+						if !ok || (bo.Op != token.NEQ && bo.Op != token.EQL) || (bo.Op == token.NEQ) != cf.Val {
+							break
+						}
+						k, isK := bo.Y.(*ssa.Const)
+						if !isK || k.Value == nil || k.Value.Kind() != constant.String || constant.StringVal(k.Value) != "" {
+							break
+						}
+						u, ok := bo.X.(*ssa.UnOp)
+						if !ok || u.Op != token.MUL {
+							continue
+						}
+						ffa, ok := u.X.(*ssa.FieldAddr)
+						if !ok {
+							continue
+						}
+						// the value stored is obtained from what the flag names (a file read from that path, …)
+						fk := flow.StructFieldKey(ffa.X.Type(), ffa.Field)
+						usesFlag := false
+						for _, b2 := range f.Blocks {
+							if !cf.Block.Dominates(b2) || b2 == cf.Block {
+								continue
+							}
+							guardedBlk := false
+							for _, cf2 := range dominatingConds(b2) {
+								if cf2.Cond == cf.Cond && cf2.Val == cf.Val {
+									guardedBlk = true
+								}
+							}
+							if !guardedBlk {
+								continue
+							}
+							for _, in2 := range b2.Instrs {
+								call, ok := in2.(ssa.CallInstruction)
+								if !ok {
+									continue
+								}
+								for _, a := range call.Common().Args {
+									if lu, ok := a.(*ssa.UnOp); ok && lu.Op == token.MUL {
+										if lfa, ok := lu.X.(*ssa.FieldAddr); ok && flow.StructFieldKey(lfa.X.Type(), lfa.Field) == fk {
+											usesFlag = true
+										}
+									}
+								}
+							}
+						}
+						if !usesFlag {
+							continue
+						}
+						gs = append(gs, guarded{st, fk, flow.FieldName(fa)})
+						break
+					}
+				}
+			}
+			if len(gs) == 0 || len(gs) > 8 {
+				continue
+			}
+			nG += len(gs)
+			flagIdx := map[flow.FieldKey]int{}
+			for _, g := range gs {
+				if _, ok := flagIdx[g.flag]; !ok {
+					flagIdx[g.flag] = len(flagIdx)
+				}
+			}
+			r := &esp.Rule{Name: "C06.R10"}
+			r.Relevant = func(*ssa.Function) bool { return false }
+			r.Flag = func(v ssa.Value) (int, bool) {
+				if u, ok := v.(*ssa.UnOp); ok && u.Op == token.MUL {
+					if ffa, ok := u.X.(*ssa.FieldAddr); ok {
+						if i, ok := flagIdx[flow.StructFieldKey(ffa.X.Type(), ffa.Field)]; ok {
+							return i, true
+						}
+					}
+				}
+				return 0, false
+			}
+			r.Match = func(in ssa.Instruction) []esp.Ev {
+				for i, g := range gs {
+					if in == ssa.Instruction(g.st) {
+						return []esp.Ev{{ID: i, Name: "Context." + g.name + " loaded", ErrIdx: -1, BoolIdx: -1}}
+					}
+				}
+				return nil
+			}
+			r.Step = func(x *esp.Ctx, s esp.State, ev esp.Ev, ph esp.Phase) (esp.State, string) {
+				if ph == esp.AtCall {
+					return s.Set(uint(ev.ID)), ""
+				}
+				return s, ""
+			}
+			ei := errIndex(f.Signature)
+			r.AtReturn = func(x *esp.Ctx, s esp.State, rets []esp.Abs) string {
+				if ei < len(rets) && rets[ei] == esp.NonZero {
+					return ""
+				}
+				for i, g := range gs {
+					if !s.Has(uint(i)) && s.Flag(flagIdx[g.flag]) != esp.Zero {
+						return "R10: the command may succeed without loading Context." + g.name + " although the flag that names it may be set: the signed document is built without a requested input"
+					}
+				}
+				return ""
+			}
+			e := c.engine(r)
+			e.Run(f, esp.State{})
+			if c.reportEngine(e, "R10", func(v *esp.Violation) string { return load.FuncName(f) + ":requested inputs loaded" }) == 0 {
+				c.S.OK("R10", load.FuncName(f)+":requested inputs loaded", c.pos(f.Pos()), fmt.Sprintf("%d flag-guarded loads of Context fields, none skipped on a successful path (%d configurations)", len(gs), e.Configs), true)
+			}
+		}
+		c.S.Floor("R10", "flag-guarded loads of endorse.Context fields in package cmd", 1, nG)
 	}
 
 	// ---- R6 ----
